@@ -429,7 +429,7 @@ func firstDiff(a, b []byte) int {
 
 func TestProp(t *testing.T) {
 	h.Main(t, "C13",
-		h.Rapid("bam_chunks", h.Opt{Quick: 6000, Thorough: 150000}, drawB, runB),
-		h.Rapid("chunk_reader", h.Opt{Quick: 20000, Thorough: 600000}, drawR, runR),
+		h.Rapid("bam_chunks", h.Opt{Quick: 4000, Thorough: 150000}, drawB, runB),
+		h.Rapid("chunk_reader", h.Opt{Quick: 12000, Thorough: 600000}, drawR, runR),
 	)
 }
